@@ -39,7 +39,7 @@ def ab(reg, ns):
     return U[:, :ns], U[:, ns:]
 
 
-def log_monotone(log, tol_rel=1e-5, tol_abs=1e-6):
+def log_monotone(log, tol_rel=2e-4, tol_abs=1e-6):
     """first index where the logged objective increases by more than solver tolerance"""
     for k in range(1, len(log)):
         if log[k] > log[k - 1] + tol_abs + tol_rel * abs(log[k - 1]):
